@@ -22,6 +22,8 @@ Inductive case :=
 | CJoin (elems : list str) (o : str)
 | CDir (p o : str)
 | CUnesc (raw : str) (o : option str)
+(* real core.ParseSHA256Digest: Some (Hex()) or None *)
+| CDigest (raw : str) (o : option str)
 (* a real chi router + httputil.ParseParam: observed (chi.URLParam, ParseParam result); None = 4xx *)
 | CRoute (raw : str) (oparam : option str) (oname : option str)
 (* real NewLocalFileEntryFactory().Create(name, NewFileState(dir)) -> GetPath();  None = error *)
@@ -58,9 +60,12 @@ Definition cache_pre : str := [99; 47].   (* "c/" *)
 
 (* endpoints: 0 PUT /tags + GET, 1 PUT /internal/duplicate/tags + GET, 2 GET /tags on an empty store,
    3 duplicate-put + POST /remotes/tags, 4 cluster upload PATCH+PUT, 5 internal upload PATCH+PUT,
-   6 duplicate commit PUT *)
+   6 duplicate commit PUT, 7 hostile blob name (digest parameter): POST /internal/blobs/{d}/uploads,
+   GET /namespace/ns/blobs/{d}, DELETE /internal/blobs/{d}; ok = the upload was started *)
 Definition tag_ep (ep : N) : bool := (ep =? 0) || (ep =? 1) || (ep =? 3).
 Definition upload_ep (ep : N) : bool := (ep =? 4) || (ep =? 5) || (ep =? 6).
+Definition digest_ep (ep : N) : bool := ep =? 7.
+Definition is_some (o : option str) : bool := match o with Some _ => true | None => false end.
 
 Definition exp_http_ok (ep : N) (raw aux : str) : bool :=
   match http_name raw with
@@ -68,6 +73,7 @@ Definition exp_http_ok (ep : N) (raw aux : str) : bool :=
   | Some name =>
       if tag_ep ep then local_accepts name && storable name
       else if upload_ep ep then local_accepts name && str_eqb name aux
+      else if digest_ep ep then is_some (parse_digest name)
       else false
   end.
 
@@ -77,6 +83,7 @@ Definition agrees (c : case) : bool :=
   | CJoin elems o => str_eqb (join elems) o
   | CDir p o => str_eqb (dir_of p) o
   | CUnesc raw o => ostr_eqb (unescape raw) o
+  | CDigest raw o => ostr_eqb (parse_digest raw) o
   | CRoute raw op on => ostr_eqb (route_param raw) op && ostr_eqb (http_name raw) on
   | CLocal dir name o => ostr_eqb (local_create dir name) o
   | CCas dir name o => str_eqb (cas_path dir name) o
@@ -106,12 +113,17 @@ Definition holds (c : case) : bool :=
   match c with
   | CLocal dir name o => C11_check dir o
   | CCas dir name o => if cas_name_ok name then inside (clean dir) o else true
+  | CDigest raw o => match o with Some h => cas_name_ok h | None => true end
   | CStore name ok files after outside =>
       (outside =? 0) && forallb (inside [dot]) files && forallb (inside [dot]) after
       && (if ok then normal_path name else true)
   | CHttp ep raw aux ok files outside leak =>
       (outside =? 0) && negb leak && forallb (inside [dot]) files
-      && (if ok then match http_name raw with Some name => normal_path name | None => false end else true)
+      && (if ok then match http_name raw with
+                     | Some name => if digest_ep ep then is_some (parse_digest name) else normal_path name
+                     | None => false
+                     end
+          else true)
   | _ => true
   end.
 
